@@ -24,6 +24,12 @@ CHECKS = {
  'C14': dict(level='fault_enumeration', engine='faultmc', technique='deviation-bounded exhaustive fault enumeration on the implementation: one injected OSError at every k-th mutating library call of every build transition of the bounded sweep',
    text='Every build transition of the bounded sweep is first run counting the mutating file-system calls the library makes before the commit (mkdir, rename, rmdir, replace, open-for-write), then re-run once per call k and errno (EIO, EACCES; for the cache file also write-after-n-bytes and close) with exactly that call failing. Uncaught: the rollback monitors of C02 must hold. Caught: value and tree must equal the reference model with the API call in progress failing in setup without effect (or the fault had no observable effect), foreign files untouched, and clean afterwards leaves the model tree.',
    note='One deviation per run (two-fault sequences are not explored). Faults inside commit/roll back are outside the statement and not injected. remove/unlink are not injected (the property lists create-directory, move-aside and cache-write calls).', design='4/C14'),
+ 'C07': dict(level='model_checking', engine='valmc', technique='exhaustive enumeration of all ordered pairs of a colliding value set / path spellings, each pair executed as real builds and compared with an independent canonical form',
+   text='For every ordered pair (v1, v2) of the argument value set (atoms chosen to collide, tuples, non-string and colliding keys, grown dicts, big ints, -0.0, inf, non-BMP) as positional and as keyword argument, for subbuild and build_file, and for every ordered pair of 17 spellings of paths and of function names: the second call is rejected in the same build / served without invocation in the next build iff the independently computed canonical forms are equal, and the callee receives exactly json.loads(json.dumps(args)) and os.path.abspath(os.fsdecode(path)).',
+   note='Value set is finite and listed in the evidence; deeper values are covered by C18 on the helper functions themselves.', design='4/C07'),
+ 'C18': dict(level='model_checking', engine='valmc', technique='exhaustive bounded enumeration of JSON values (all values up to a node bound) and of all ordered pairs, helper results compared with an independent canonical form',
+   text='All values with <=3 (quick) / <=4 (thorough) constructor nodes over 13 colliding atoms (lists, tuples, dicts with str/int/float/bool/None keys): sanitize(v) is type-exactly json.loads(json.dumps(v)), idempotent and shares no mutable object with v. All ordered pairs of the de-duplicated sanitised set (plus tuple-ised variants): is_equal and equality of to_hashable both coincide with equality of an independently written canonical form, which makes is_equal an equivalence (reflexive, symmetric, transitive) on the set and gives the bool/number, 1/1.0 and list/tuple clauses. Non-JSON values raise TypeError; int/str/list/dict subclasses are normalised.',
+   note='Bounded by node count; the random deeper values mentioned in the quantifier are sampling and not used as evidence.', design='4/C18'),
 }
 NOT_YET = {}
 props = [json.loads(l)['id'] for l in open(V + '/properties.jsonl')]
@@ -58,6 +64,8 @@ m = {
  'engines': [
   {'name': 'seqmc', 'path': 'fbmc/history.py fbmc/checks/', 'serves_properties': [p for p in props if CHECKS.get(p, {}).get('engine') == 'seqmc'],
    'kind_free_text': 'explicit-state / exhaustive bounded enumeration of sequential histories executed on the real implementation, reference-model oracle'},
+  {'name': 'valmc', 'path': 'fbmc/valmc.py fbmc/checks/c18.py fbmc/checks/c07.py', 'serves_properties': [p for p in props if CHECKS.get(p, {}).get('engine') == 'valmc'],
+   'kind_free_text': 'exhaustive value-space enumeration (JSON constructors over a colliding atom set), all ordered pairs'},
   {'name': 'faultmc', 'path': 'fbmc/faults.py fbmc/checks/c14.py', 'serves_properties': [p for p in props if CHECKS.get(p, {}).get('engine') == 'faultmc'],
    'kind_free_text': 'deviation-bounded fault injection (k-th mutating library call fails) on top of seqmc'},
  ],
